@@ -92,6 +92,11 @@ func (ex *Exec) engineAxioms(used map[string]bool) string {
 		sb.WriteString(`(assert (forall ((a (Array Int Int)) (o Int) (i Int)) (! (= (select (seqshift a o) i) (select a (+ o i))) :pattern ((select (seqshift a o) i)))))
 `)
 	}
+	if used["seqdel"] {
+		sb.WriteString(`(assert (forall ((s ISeq) (p Int)) (! (= (seqlen (seqdel s p)) (- (seqlen s) 1)) :pattern ((seqdel s p)))))
+(assert (forall ((s ISeq) (p Int) (i Int)) (! (= (select (seqarr (seqdel s p)) i) (ite (< i p) (select (seqarr s) i) (select (seqarr s) (+ i 1)))) :pattern ((select (seqarr (seqdel s p)) i)))))
+`)
+	}
 	if used["subobj"] {
 		sb.WriteString(`(declare-fun subobj.owner (Int) Int)
 (declare-fun subobj.field (Int) Int)
@@ -192,6 +197,10 @@ func (ex *Exec) buildQuery(o *Obligation, sg subgoal, exclude string, values []*
 	return ex.buildQueryMode(o, sg, exclude, values, false)
 }
 
+// pairInstances: whether two-variable quantifiers are pre-instantiated too
+// (used for the second "light" attempt only: it makes queries much larger).
+var pairInstances = false
+
 // buildQueryMode: with light set, hypotheses that contain quantifiers are
 // replaced by their pre-instantiated instances only. A light query that is
 // unsat discharges the obligation (it uses fewer hypotheses); anything else
@@ -213,7 +222,7 @@ func (ex *Exec) buildQueryMode(o *Obligation, sg subgoal, exclude string, values
 	sb.WriteString(Preamble)
 	ex.D.EmitFor(&sb, append(all, values...))
 	eng := map[string]bool{}
-	for _, n := range []string{"sconcat", "chr", "card", "subobj", "sid", "seqshift"} {
+	for _, n := range []string{"sconcat", "chr", "card", "subobj", "sid", "seqshift", "seqdel"} {
 		if used[n] {
 			eng[n] = true
 		}
@@ -227,7 +236,7 @@ func (ex *Exec) buildQueryMode(o *Obligation, sg subgoal, exclude string, values
 		}
 	}
 	focus := append(append([]*Term{}, sg.hyps...), neg)
-	insts := preInstantiate(ex.D, append(append([]*Term{}, asserts...), extra...), focus)
+	insts := preInstantiate(ex.D, append(append([]*Term{}, asserts...), extra...), focus, pairInstances, o.Hints)
 	var instDecl strings.Builder
 	ex.D.EmitFor(&instDecl, insts)
 	// only declarations not emitted yet
